@@ -118,6 +118,11 @@ class Poly:
         return hash(tuple(sorted(self.m.items())))
 
 
+import re as _re0
+# operator-trait calls on primitive integers (`&usize * usize` is a call in MIR, not a BinaryOp)
+INT_OP_CALL = _re0.compile(r"^<&?((?:u|i)(?:8|16|32|64|128|size)) as std::ops::(?:Add|Sub|Mul)<&?(?:u|i)(?:8|16|32|64|128|size)>>::(add|sub|mul)$")
+
+
 def rel_atom(p, op):
     """canonical ("rel", "<poly> <op> 0") for op in >=, ==, !="""
     p = p.normalised_int()
@@ -504,6 +509,15 @@ class Sym:
                             k_ = int(n.const_value())
                             self.sym_box[nm] = (k_ * rng[0], k_ * rng[1])
                 return Poly.sym(nm)
+            mo = None
+            if s in ("Mul::mul", "Add::add", "Sub::sub") and len(t[2]) == 2:
+                blk = self.site_block(t[3]) or {}
+                mo = INT_OP_CALL.match(blk.get("resolved") or "")
+            if mo and len(t[2]) == 2:
+                a, b = self.poly(t[2][0]), self.poly(t[2][1])
+                if a is None or b is None:
+                    return None
+                return a + b if mo.group(2) == "add" else a - b if mo.group(2) == "sub" else a * b
             if s.endswith("::leading_zeros") and len(t[2]) == 1:
                 nm = self.name(t)
                 m_ = __import__("re").search(r"impl u(\d+)>::leading_zeros", t[1])
